@@ -45,10 +45,17 @@ pub enum Class {
     ForeignClauses,
     /// destructor of a different codata type invoked on the scrutinee
     ForeignDtor,
+    /// `goto a (t)` under a new innermost *variable* binding of `a` (an outer covariable `a` exists)
+    RebindGotoTarget,
+    /// a call / constructor / destructor whose last variable-shaped argument is re-bound right
+    /// outside by a `let` at a type no parameter has (covariable arguments become variables)
+    RebindArgument,
+    /// a variable occurrence under a new innermost *label* of the same name
+    RebindVarAsLabel,
 }
 
 /// Classes that need the twin declarations (`TWIN`) in front of the program.
-pub const FOREIGN_CLASSES: [Class; 3] = [Class::ForeignCtor, Class::ForeignClauses, Class::ForeignDtor];
+pub const FOREIGN_CLASSES: [Class; 6] = [Class::ForeignCtor, Class::ForeignClauses, Class::ForeignDtor, Class::RebindGotoTarget, Class::RebindArgument, Class::RebindVarAsLabel];
 
 /// Twin types with the same shape as List / Fun, instantiated (by a signature and by use) at the
 /// type arguments the generated programs use most.
@@ -94,9 +101,37 @@ fn unbound_var() -> Term {
     XVar { span: span(), var: "zz_unbound".into(), ty: None, chi: None }.into()
 }
 
+fn last_var_arg(args: &[Term]) -> Option<String> {
+    args.iter().rev().find_map(|a| if let Term::XVar(v) = a { Some(v.var.clone()) } else { None })
+}
+
+/// `let NAME: TwList[i64] = TwNil; INNER` — NAME becomes a variable of a type nothing else has.
+fn rebind_let(name: &str, inner: Term) -> Term {
+    let tw = Ty::Decl { span: None, name: "TwList".into(), type_args: TypeArgs { span: None, args: vec![Ty::mk_i64()] } };
+    let tw_nil: Term = Constructor { span: span(), id: "TwNil".into(), args: vec![].into(), ty: None }.into();
+    Let { span: span(), variable: name.into(), var_ty: tw, bound_term: Rc::new(tw_nil), in_term: Rc::new(inner), ty: None }.into()
+}
+
 /// Tries to apply `class` at this node. Returns true if the node was an applicable site (and was
 /// mutated).
 fn apply(t: &mut Term, class: Class) -> bool {
+    // classes that wrap the node itself
+    let wrap_name: Option<(String, bool)> = match (class, &*t) {
+        (Class::RebindGotoTarget, Term::Goto(g)) => Some((g.target.clone(), false)),
+        (Class::RebindArgument, Term::Call(c)) => last_var_arg(&c.args.entries).map(|n| (n, false)),
+        (Class::RebindArgument, Term::Constructor(c)) => last_var_arg(&c.args.entries).map(|n| (n, false)),
+        (Class::RebindArgument, Term::Destructor(d)) => last_var_arg(&d.args.entries).map(|n| (n, false)),
+        (Class::RebindVarAsLabel, Term::XVar(v)) => Some((v.var.clone(), true)),
+        _ => None,
+    };
+    if let Some((name, as_label)) = wrap_name {
+        let inner = t.clone();
+        *t = if as_label { Label { span: span(), label: name, term: Rc::new(inner), ty: None }.into() } else { rebind_let(&name, inner) };
+        return true;
+    }
+    if matches!(class, Class::RebindGotoTarget | Class::RebindArgument | Class::RebindVarAsLabel) {
+        return false;
+    }
     match (class, t) {
         (Class::CallArgMinus, Term::Call(c)) if !c.args.entries.is_empty() => {
             c.args.entries.pop();
